@@ -48,15 +48,27 @@ def evN (m : Node) : Obs → Nat
   | .nstart n => unit n m
   | _ => 0
 
-/-- an observation none of the three counters sees -/
+/-- `on_pipeline_start` -/
+def evP : Obs → Nat
+  | .pstart => 1
+  | _ => 0
+/-- `on_pipeline_complete(…)` -/
+def evC : Obs → Nat
+  | .pcomplete _ => 1
+  | _ => 0
+
+/-- an observation none of the counters sees -/
 def Obs.neutral : Obs → Bool
   | .save .. => false
   | .ncomplete _ none => false
   | .nstart _ => false
+  | .pstart => false
+  | .pcomplete _ => false
   | _ => true
 
-theorem neutral_ev {o : Obs} (h : o.neutral = true) (m : Node) : evS m o = 0 ∧ evO m o = 0 ∧ evN m o = 0 := by
-  cases o <;> simp [Obs.neutral, evS, evO, evN] at h ⊢
+theorem neutral_ev {o : Obs} (h : o.neutral = true) (m : Node) :
+    evS m o = 0 ∧ evO m o = 0 ∧ evN m o = 0 ∧ evP o = 0 ∧ evC o = 0 := by
+  cases o <;> simp [Obs.neutral, evS, evO, evN, evP, evC] at h ⊢
   next n err => cases err <;> simp_all
 
 /-! ### tokens held by frames -/
@@ -70,6 +82,18 @@ def fB (m : Node) : Frame → Nat
   | .node _ n _ (.body ..) => unit n m
   | .node _ n _ (.sleep ..) => unit n m
   | .node _ n _ (.cbRetry ..) => unit n m
+  | _ => 0
+
+/-- `chart.run` has not emitted `on_pipeline_start` yet -/
+def fM : Frame → Nat
+  | .mgrStart => 1
+  | _ => 0
+
+/-- `chart.run` has not emitted `on_pipeline_complete` yet -/
+def fW : Frame → Nat
+  | .mgrStart => 1
+  | .mgrCbStart _ => 1
+  | .mgrWait => 1
   | _ => 0
 
 def sumF (f : Frame → Nat) : List Frame → Nat
@@ -132,32 +156,42 @@ theorem rsum_append_zero (G : List Frame → Nat) (y : List Frame) (hy : G y = 0
 
 def stacks (s : St) : List (List Frame) := s.tasks.map (·.frames)
 
-/-- event totals before the current section -/
+/-- event totals before the current section; `hyp`: the event manager does not raise in `on_pipeline_complete` -/
 structure Tot where
   kS : Node → Nat
   kO : Node → Nat
   kN : Node → Nat
+  kP : Nat
+  kC : Nat
+  hyp : Prop
 
 /-- between sections -/
 def Acc (k : Tot) (s : St) : Prop :=
-  ∀ m, k.kS m + lsum (sumF (fA m)) (stacks s) ≤ k.kO m
+  (∀ m, k.kS m + lsum (sumF (fA m)) (stacks s) ≤ k.kO m
      ∧ k.kO m + lsum (sumF (fB m)) (stacks s) ≤ k.kN m
-     ∧ k.kN m = s.invCount m
+     ∧ k.kN m = s.invCount m)
+  ∧ k.kP + lsum (sumF fM) (stacks s) ≤ 1
+  ∧ (k.hyp → k.kC + lsum (sumF fW) (stacks s) ≤ 1)
 
 /-- inside a section of task `c.t`, whose stack would be `fs` if it suspended now -/
 def Bud (k : Tot) (c : Ctx) (s : St) (obs : List Obs) (fs : List Frame) : Prop :=
-  ∀ m, k.kS m + cnt (evS m) obs + rsum (sumF (fA m)) (stacks s) c.t + sumF (fA m) fs ≤ k.kO m + cnt (evO m) obs
+  (∀ m, k.kS m + cnt (evS m) obs + rsum (sumF (fA m)) (stacks s) c.t + sumF (fA m) fs ≤ k.kO m + cnt (evO m) obs
      ∧ k.kO m + cnt (evO m) obs + rsum (sumF (fB m)) (stacks s) c.t + sumF (fB m) fs ≤ k.kN m + cnt (evN m) obs
-     ∧ k.kN m + cnt (evN m) obs = s.invCount m
+     ∧ k.kN m + cnt (evN m) obs = s.invCount m)
+  ∧ k.kP + cnt evP obs + rsum (sumF fM) (stacks s) c.t + sumF fM fs ≤ 1
+  ∧ (k.hyp → k.kC + cnt evC obs + rsum (sumF fW) (stacks s) c.t + sumF fW fs ≤ 1)
 
 /-- at the end of a section -/
 def Post (k : Tot) (out : Out) : Prop :=
-  ∀ m, k.kS m + cnt (evS m) out.2 + lsum (sumF (fA m)) (stacks out.1) ≤ k.kO m + cnt (evO m) out.2
+  (∀ m, k.kS m + cnt (evS m) out.2 + lsum (sumF (fA m)) (stacks out.1) ≤ k.kO m + cnt (evO m) out.2
      ∧ k.kO m + cnt (evO m) out.2 + lsum (sumF (fB m)) (stacks out.1) ≤ k.kN m + cnt (evN m) out.2
-     ∧ k.kN m + cnt (evN m) out.2 = out.1.invCount m
+     ∧ k.kN m + cnt (evN m) out.2 = out.1.invCount m)
+  ∧ k.kP + cnt evP out.2 + lsum (sumF fM) (stacks out.1) ≤ 1
+  ∧ (k.hyp → k.kC + cnt evC out.2 + lsum (sumF fW) (stacks out.1) ≤ 1)
 
 def Tot.add (k : Tot) (obs : List Obs) : Tot :=
-  ⟨fun m => k.kS m + cnt (evS m) obs, fun m => k.kO m + cnt (evO m) obs, fun m => k.kN m + cnt (evN m) obs⟩
+  ⟨fun m => k.kS m + cnt (evS m) obs, fun m => k.kO m + cnt (evO m) obs, fun m => k.kN m + cnt (evN m) obs,
+   k.kP + cnt evP obs, k.kC + cnt evC obs, k.hyp⟩
 
 theorem acc_of_post {k : Tot} {out : Out} (h : Post k out) : Acc (k.add out.2) out.1 := h
 
@@ -170,40 +204,80 @@ theorem SameL.trans {a b c : St} (h1 : SameL a b) (h2 : SameL b c) : SameL a c :
 
 theorem Bud.same {k : Tot} {c : Ctx} {s s' : St} {obs : List Obs} {fs : List Frame} (h : Bud k c s obs fs)
     (hs : SameL s s') : Bud k c s' obs fs := by
-  intro m; have := h m; rw [hs.1, hs.2]; exact this
+  unfold Bud at h ⊢; rw [hs.1, hs.2]; exact h
+
+/-- the stack `fs'` holds no more tokens than `fs` -/
+def Wle (fs' fs : List Frame) : Prop :=
+  (∀ m, sumF (fA m) fs' ≤ sumF (fA m) fs ∧ sumF (fB m) fs' ≤ sumF (fB m) fs) ∧
+  sumF fM fs' ≤ sumF fM fs ∧ sumF fW fs' ≤ sumF fW fs
 
 theorem Bud.mono {k : Tot} {c : Ctx} {s : St} {obs : List Obs} {fs fs' : List Frame} (h : Bud k c s obs fs)
-    (hA : ∀ m, sumF (fA m) fs' ≤ sumF (fA m) fs) (hB : ∀ m, sumF (fB m) fs' ≤ sumF (fB m) fs) : Bud k c s obs fs' := by
-  intro m; have := h m; have := hA m; have := hB m; omega
+    (hw : Wle fs' fs) : Bud k c s obs fs' := by
+  obtain ⟨h1, h2, h3⟩ := h
+  obtain ⟨w1, w2, w3⟩ := hw
+  refine ⟨fun m => ?_, by omega, fun hp => ?_⟩
+  · have := h1 m; have := w1 m; omega
+  · have := h3 hp; omega
 
 theorem Bud.emit {k : Tot} {c : Ctx} {s : St} {obs : List Obs} {fs : List Frame} (h : Bud k c s obs fs)
     (o : Obs) (ho : o.neutral = true) : Bud k c s (obs ++ [o]) fs := by
-  intro m; have := h m; have := neutral_ev ho m; simp only [cnt_append, cnt_cons, cnt_nil]; omega
+  obtain ⟨h1, h2, h3⟩ := h
+  simp only [Bud, cnt_append, cnt_cons, cnt_nil]
+  refine ⟨fun m => ?_, ?_, fun hp => ?_⟩
+  · have := h1 m; have := neutral_ev ho m; omega
+  · have := neutral_ev ho 0; omega
+  · have := h3 hp; have := neutral_ev ho 0; omega
 
 /-- tokens, as representative frames -/
 def tokA (n : Node) : Frame := .node default n false (.cbOk 0 .none)
 def tokB (n : Node) : Frame := .node default n false (.cbStart 0 0)
+/-- `chart.run` before `on_pipeline_start` / before `on_pipeline_complete` -/
+def tokM : Frame := .mgrStart
+def tokW : Frame := .mgrWait
 
 @[simp] theorem fA_tokA (m n : Node) : fA m (tokA n) = unit n m := rfl
 @[simp] theorem fB_tokA (m n : Node) : fB m (tokA n) = 0 := rfl
 @[simp] theorem fA_tokB (m n : Node) : fA m (tokB n) = 0 := rfl
 @[simp] theorem fB_tokB (m n : Node) : fB m (tokB n) = unit n m := rfl
+@[simp] theorem fM_tokA (n : Node) : fM (tokA n) = 0 := rfl
+@[simp] theorem fW_tokA (n : Node) : fW (tokA n) = 0 := rfl
+@[simp] theorem fM_tokB (n : Node) : fM (tokB n) = 0 := rfl
+@[simp] theorem fW_tokB (n : Node) : fW (tokB n) = 0 := rfl
+@[simp] theorem fM_tokM : fM tokM = 1 := rfl
+@[simp] theorem fW_tokM : fW tokM = 1 := rfl
+@[simp] theorem fM_tokW : fM tokW = 0 := rfl
+@[simp] theorem fW_tokW : fW tokW = 1 := rfl
+@[simp] theorem fA_tokM (m : Node) : fA m tokM = 0 := rfl
+@[simp] theorem fB_tokM (m : Node) : fB m tokM = 0 := rfl
+@[simp] theorem fA_tokW (m : Node) : fA m tokW = 0 := rfl
+@[simp] theorem fB_tokW (m : Node) : fB m tokW = 0 := rfl
+
+/-- weights of concrete frame lists -/
+macro "wt" : tactic =>
+  `(tactic| (refine ⟨fun m => ⟨?_, ?_⟩, ?_, ?_⟩ <;> simp [fA, fB, fM, fW, tokA, tokB, tokM, tokW] <;> omega))
+
 
 theorem Bud.saved {k : Tot} {c : Ctx} {s : St} {obs : List Obs} {fs : List Frame} {n : Node}
     (h : Bud k c s obs (tokA n :: fs)) (v : Val) : Bud k c s (obs ++ [.save n v]) fs := by
-  intro m; have := h m
-  simp only [cnt_append, cnt_cons, cnt_nil, evS, evO, evN, sumF_cons, fA_tokA, fB_tokA] at this ⊢; omega
+  obtain ⟨h1, h2, h3⟩ := h
+  simp only [Bud, cnt_append, cnt_cons, cnt_nil, evS, evO, evN, evP, evC, sumF_cons, fA_tokA, fB_tokA, fM_tokA, fW_tokA] at h1 h2 h3 ⊢
+  exact ⟨fun m => by have := h1 m; omega, by omega, fun hp => by have := h3 hp; omega⟩
 
 theorem Bud.okc {k : Tot} {c : Ctx} {s : St} {obs : List Obs} {fs : List Frame} {n : Node}
     (h : Bud k c s obs (tokB n :: fs)) : Bud k c s (obs ++ [.ncomplete n none]) (tokA n :: fs) := by
-  intro m; have := h m
-  simp only [cnt_append, cnt_cons, cnt_nil, evS, evO, evN, sumF_cons, fA_tokA, fB_tokA, fA_tokB, fB_tokB] at this ⊢; omega
+  obtain ⟨h1, h2, h3⟩ := h
+  simp only [Bud, cnt_append, cnt_cons, cnt_nil, evS, evO, evN, evP, evC, sumF_cons, fA_tokA, fB_tokA, fA_tokB, fB_tokB,
+    fM_tokA, fW_tokA, fM_tokB, fW_tokB] at h1 h2 h3 ⊢
+  exact ⟨fun m => by have := h1 m; omega, by omega, fun hp => by have := h3 hp; omega⟩
 
 theorem Bud.nstart {k : Tot} {c : Ctx} {s : St} {obs : List Obs} {fs : List Frame} (h : Bud k c s obs fs) (n : Node) :
     Bud k c (s.markProcessed n) (obs ++ [.nstart n]) (tokB n :: fs) := by
-  intro m; have := h m
+  obtain ⟨h1, h2, h3⟩ := h
   have hst : stacks (s.markProcessed n) = stacks s := rfl
-  simp only [cnt_append, cnt_cons, cnt_nil, evS, evO, evN, sumF_cons, fA_tokB, fB_tokB, hst] at this ⊢
+  simp only [Bud, cnt_append, cnt_cons, cnt_nil, evS, evO, evN, evP, evC, sumF_cons, fA_tokB, fB_tokB, fM_tokB, fW_tokB, hst]
+    at h1 h2 h3 ⊢
+  refine ⟨fun m => ?_, by omega, fun hp => by have := h3 hp; omega⟩
+  have := h1 m
   refine ⟨by omega, by omega, ?_⟩
   simp only [St.markProcessed, upd, unit]
   by_cases hmn : m = n
@@ -211,13 +285,44 @@ theorem Bud.nstart {k : Tot} {c : Ctx} {s : St} {obs : List Obs} {fs : List Fram
   · have : ¬ n = m := fun e => hmn e.symm
     simp [hmn, this]; omega
 
+/-- `on_pipeline_start` is emitted by the code that holds the start token; it still owes `on_pipeline_complete` -/
+theorem Bud.pstarted {k : Tot} {c : Ctx} {s : St} {obs : List Obs} {fs : List Frame}
+    (h : Bud k c s obs (tokM :: fs)) : Bud k c s (obs ++ [.pstart]) (tokW :: fs) := by
+  obtain ⟨h1, h2, h3⟩ := h
+  simp only [Bud, cnt_append, cnt_cons, cnt_nil, evS, evO, evN, evP, evC, sumF_cons, fA_tokM, fB_tokM, fA_tokW, fB_tokW,
+    fM_tokM, fW_tokM, fM_tokW, fW_tokW] at h1 h2 h3 ⊢
+  exact ⟨fun m => by have := h1 m; omega, by omega, fun hp => by have := h3 hp; omega⟩
+
+/-- `on_pipeline_complete` is emitted by the code that holds the completion token -/
+theorem Bud.pcompleted {k : Tot} {c : Ctx} {s : St} {obs : List Obs} {fs : List Frame}
+    (h : Bud k c s obs (tokW :: fs)) (o : Outcome) : Bud k c s (obs ++ [.pcomplete o]) fs := by
+  obtain ⟨h1, h2, h3⟩ := h
+  simp only [Bud, cnt_append, cnt_cons, cnt_nil, evS, evO, evN, evP, evC, sumF_cons, fA_tokW, fB_tokW, fM_tokW, fW_tokW]
+    at h1 h2 h3 ⊢
+  exact ⟨fun m => by have := h1 m; omega, by omega, fun hp => by have := h3 hp; omega⟩
+
+/-- a second `on_pipeline_complete` (the first one raised): only when the hypothesis "does not raise" is false -/
+theorem Bud.pcompleted_again {k : Tot} {c : Ctx} {s : St} {obs : List Obs} {fs : List Frame}
+    (h : Bud k c s obs fs) (o : Outcome) (hn : ¬ k.hyp) : Bud k c s (obs ++ [.pcomplete o]) fs := by
+  obtain ⟨h1, h2, h3⟩ := h
+  simp only [Bud, cnt_append, cnt_cons, cnt_nil, evS, evO, evN, evP, evC] at h1 h2 h3 ⊢
+  exact ⟨fun m => by have := h1 m; omega, by omega, fun hp => absurd hp hn⟩
+
+/-- a frame that holds no token -/
+def Wzero (fr : Frame) : Prop := (∀ m, fA m fr = 0 ∧ fB m fr = 0) ∧ fM fr = 0 ∧ fW fr = 0
+
 theorem Bud.spawned {k : Tot} {c : Ctx} {s : St} {obs : List Obs} {fs : List Frame} (h : Bud k c s obs fs)
-    (fr : Frame) (nm : TaskName) (hA : ∀ m, fA m fr = 0) (hB : ∀ m, fB m fr = 0) :
+    (fr : Frame) (nm : TaskName) (hz : Wzero fr) :
     Bud k c (Eng.spawn s [fr] nm).1 obs fs := by
-  intro m; have := h m
+  obtain ⟨h1, h2, h3⟩ := h
+  obtain ⟨z1, z2, z3⟩ := hz
   have hst : stacks (Eng.spawn s [fr] nm).1 = stacks s ++ [[fr]] := by simp [stacks, Eng.spawn]
-  rw [hst, rsum_append_zero _ _ (by simp [hA m]), rsum_append_zero _ _ (by simp [hB m])]
-  exact this
+  have hinv : (Eng.spawn s [fr] nm).1.invCount = s.invCount := rfl
+  unfold Bud
+  rw [hst, hinv, rsum_append_zero _ _ (by simp [z2]), rsum_append_zero _ _ (by simp [z3])]
+  refine ⟨fun m => ?_, h2, h3⟩
+  rw [rsum_append_zero _ _ (by simp [(z1 m).1]), rsum_append_zero _ _ (by simp [(z1 m).2])]
+  exact h1 m
 
 
 /-! ### state changes that touch neither frames nor counters -/
@@ -309,38 +414,37 @@ theorem sameL_unwindFrames (P : Program) : ∀ (fs : List Frame) (s : St), SameL
 
 theorem post_of_none {k : Tot} {c : Ctx} {s : St} {obs : List Obs} {fs : List Frame} (h : Bud k c s obs fs)
     (hn : s.tasks[c.t]? = none) : Post k (s, obs) := by
-  intro m
-  have := h m
+  obtain ⟨h1, h2, h3⟩ := h
   have hn' : (stacks s)[c.t]? = none := by simp [stacks, hn]
-  simp only [lsum_eq_rsum_none _ _ _ hn']
-  omega
+  simp only [Post, lsum_eq_rsum_none _ _ _ hn']
+  exact ⟨fun m => by have := h1 m; omega, by omega, fun hp => by have := h3 hp; omega⟩
 
 theorem post_setTask {k : Tot} {c : Ctx} {s : St} {obs : List Obs} {fs : List Frame} (h : Bud k c s obs fs)
     (tk' : Task) (hf : tk'.frames = fs) : Post k (s.setTask c.t tk', obs) := by
-  intro m
-  have := h m
-  simp only [stacks_setTask, hf]
+  obtain ⟨h1, h2, h3⟩ := h
   have hinv : (s.setTask c.t tk').invCount = s.invCount := rfl
-  rw [hinv]
+  simp only [Post, stacks_setTask, hf, hinv]
   cases hx : (stacks s)[c.t]? with
   | none =>
     have hlen : (stacks s).length ≤ c.t := by simpa using hx
     have hset : (stacks s).set c.t fs = stacks s := List.set_eq_of_length_le hlen
     rw [hset]
     simp only [lsum_eq_rsum_none _ _ _ hx]
-    omega
+    exact ⟨fun m => by have := h1 m; omega, by omega, fun hp => by have := h3 hp; omega⟩
   | some x =>
     have hlt : c.t < (stacks s).length := getElem?_lt hx
     have hg : ((stacks s).set c.t fs)[c.t]? = some fs := by simp [hlt]
-    rw [lsum_eq_rsum_some _ _ _ _ hg, lsum_eq_rsum_some _ _ _ _ hg, rsum_set, rsum_set]
-    omega
+    have e : ∀ G : List Frame → Nat, lsum G ((stacks s).set c.t fs) = rsum G (stacks s) c.t + G fs := by
+      intro G; rw [lsum_eq_rsum_some _ _ _ _ hg, rsum_set]
+    simp only [e]
+    exact ⟨fun m => by have := h1 m; omega, by omega, fun hp => by have := h3 hp; omega⟩
 
 theorem post_endTask {k : Tot} {c : Ctx} {s : St} {obs : List Obs} {fs : List Frame} (h : Bud k c s obs fs)
     (r : TaskRes) : Post k (endTask c s obs r) := by
   unfold endTask
   split
   · next hn => exact post_of_none h hn
-  · exact post_setTask ((h.emit (.done c.t r) rfl).mono (fs' := []) (by intro m; simp) (by intro m; simp)) _ rfl
+  · exact post_setTask ((h.emit (.done c.t r) rfl).mono (fs' := []) (by wt)) _ rfl
 
 theorem post_block {k : Tot} {c : Ctx} {s : St} {obs : List Obs} {fs : List Frame} (h : Bud k c s obs fs)
     (w : Wait) : Post k (block c s obs fs w) := by
@@ -373,9 +477,6 @@ theorem post_raiseOut {k : Tot} {c : Ctx} {s : St} {obs : List Obs} {fs : List F
 
 /-! ### one lemma per handler of `Eng` -/
 
-/-- weights of concrete frame lists -/
-macro "wt" : tactic => `(tactic| (intro m; simp [fA, fB, tokA, tokB] <;> omega))
-
 section handlers
 variable {k : Tot} {c : Ctx}
 
@@ -385,18 +486,15 @@ theorem post_dagWaitDest {s : St} {obs : List Obs} {below : List Frame} (h : Bud
   split
   · split
     · exact post_retTo h _
-    · exact post_block (h.mono (by wt) (by wt)) _
-  · exact post_block (h.mono (by wt) (by wt)) _
+    · exact post_block (h.mono (by wt)) _
+  · exact post_block (h.mono (by wt)) _
 
-theorem launchFrame_fA (P : Program) (d : DagRef) (n m : Node) : fA m (launchFrame P d n) = 0 := by
-  unfold launchFrame; split
-  · rfl
-  · split <;> rfl
+macro "wz" : tactic => `(tactic| (refine ⟨fun m => ⟨?_, ?_⟩, ?_, ?_⟩ <;> rfl))
 
-theorem launchFrame_fB (P : Program) (d : DagRef) (n m : Node) : fB m (launchFrame P d n) = 0 := by
+theorem launchFrame_wz (P : Program) (d : DagRef) (n : Node) : Wzero (launchFrame P d n) := by
   unfold launchFrame; split
-  · rfl
-  · split <;> rfl
+  · wz
+  · split <;> wz
 
 theorem post_dagLaunch (d : DagRef) (below : List Frame) : ∀ (rest : List Node) (s : St) (obs : List Obs),
     Bud k c s obs below → Post k (dagLaunch c d below s obs rest)
@@ -414,8 +512,8 @@ theorem post_dagLaunch (d : DagRef) (below : List Frame) : ∀ (rest : List Node
           · exact (sameL_setRes s _ _).trans (sameL_notifyAll _ _)
         · exact SameL.refl s
       · exact post_dagLaunch d below rest _ _
-          (((h.spawned _ _ (launchFrame_fA _ _ _) (launchFrame_fB _ _ _))).emit _ rfl)
-    · exact post_block (h.mono (by wt) (by wt)) _
+          ((h.spawned _ _ (launchFrame_wz _ _ _)).emit _ rfl)
+    · exact post_block (h.mono (by wt)) _
 
 theorem post_dagInit {s : St} {obs : List Obs} {below : List Frame} (h : Bud k c s obs below) (d : DagRef) :
     Post k (dagInit c s obs d below) := by
@@ -476,7 +574,7 @@ theorem sameL_recSpawn (P : Program) (s : St) (d : DagRef) (n : Node) (v : Val) 
   intro obs fs h
   unfold recSpawn
   split
-  · exact h.spawned _ _ (fun _ => rfl) (fun _ => rfl)
+  · exact h.spawned _ _ (by wz)
   · exact h
 
 theorem bud_storeIf {s : St} {obs : List Obs} {fs : List Frame} (h : Bud k c s obs fs) (b : Bool) (n : Node) (v : Val) :
@@ -507,7 +605,7 @@ theorem post_nodePost {s : St} {obs : List Obs} {below : List Frame} (d : DagRef
     subst hown
     have hb := (hs h).saved v
     apply post_cbCall
-    · intro j; exact hb.mono (by wt) (by wt)
+    · intro j; exact hb.mono (by wt)
     · exact post_nodeFinish hb d n
     · intro e; exact post_nodeCbRaise hb d n below e
   · apply post_retTo
@@ -515,7 +613,7 @@ theorem post_nodePost {s : St} {obs : List Obs} {below : List Frame} (d : DagRef
     apply hs
     cases own
     · exact h
-    · exact h.mono (by wt) (by wt)
+    · exact h.mono (by wt)
 
 theorem post_nodeFailCont {s : St} {obs : List Obs} {below : List Frame} (h : Bud k c s obs below) (d : DagRef)
     (n : Node) (e : Exc) : Post k (nodeFailCont c s obs d n below e) := by
@@ -540,7 +638,7 @@ theorem post_nodeFail {s : St} {obs : List Obs} {below : List Frame} (h : Bud k 
   unfold nodeFail
   have hb := h.emit (.ncomplete n (some e)) rfl
   apply post_cbCall
-  · intro j; exact hb.mono (by wt) (by wt)
+  · intro j; exact hb.mono (by wt)
   · exact post_nodeFailCont hb d n e
   · intro e'; exact post_nodeCbRaise hb d n below e'
 
@@ -549,7 +647,7 @@ theorem post_nodeSuccess {s : St} {obs : List Obs} {below : List Frame} (h : Bud
   unfold nodeSuccess
   have hb := h.okc
   apply post_cbCall
-  · intro j; exact hb.mono (by wt) (by wt)
+  · intro j; exact hb.mono (by wt)
   · exact post_nodePost d n v true (by simpa using hb)
   · intro e; exact post_nodeCbRaiseInTry hb d n below e
 
@@ -559,7 +657,7 @@ theorem post_nodeDefault {s : St} {obs : List Obs} {below : List Frame} (h : Bud
   split
   · exact post_nodeSuccess (h.emit _ rfl) d _
   · split
-    · exact post_nodeFail ((h.emit (.dflt n kw) rfl).mono (by wt) (by wt)) d n _
+    · exact post_nodeFail ((h.emit (.dflt n kw) rfl).mono (by wt)) d n _
     · exact post_raiseOut ((h.emit (.dflt n kw) rfl).same (sameL_nodeFinally _ _ _ _ _)) _ _
 
 theorem post_nodeSleep {s : St} {obs : List Obs} {below : List Frame} (h : Bud k c s obs (tokB n :: below)) (d : DagRef)
@@ -567,15 +665,15 @@ theorem post_nodeSleep {s : St} {obs : List Obs} {below : List Frame} (h : Bud k
   unfold nodeSleep
   simp only []
   split
-  · exact post_block ((h.emit _ rfl).mono (by wt) (by wt)) _
-  · exact post_yieldNow (h.mono (by wt) (by wt))
+  · exact post_block ((h.emit _ rfl).mono (by wt)) _
+  · exact post_yieldNow (h.mono (by wt))
 
 theorem post_nodeAfterBody {s : St} {obs : List Obs} {below : List Frame} (h : Bud k c s obs (tokB n :: below))
     (d : DagRef) (force : Bool) (kk : Nat) (kw : Kwargs) (inv : Nat) (o : BodyOutcome) :
     Post k (nodeAfterBody c s obs d n force below kk kw inv o) := by
   unfold nodeAfterBody
   simp only []
-  have hlow : Bud k c s obs below := h.mono (by wt) (by wt)
+  have hlow : Bud k c s obs below := h.mono (by wt)
   split
   · exact post_nodeSuccess h d _
   · next e =>
@@ -586,7 +684,7 @@ theorem post_nodeAfterBody {s : St} {obs : List Obs} {below : List Frame} (h : B
         · exact post_nodeFail hlow d n e
       · have hb := h.emit (.ncomplete n (some e)) rfl
         apply post_cbCall
-        · intro j; exact hb.mono (by wt) (by wt)
+        · intro j; exact hb.mono (by wt)
         · exact post_nodeSleep hb d force kk kw inv
         · intro e'; exact post_nodeCbRaiseInTry hb d n below e'
     · split
@@ -604,13 +702,13 @@ theorem post_nodeAttempt {s : St} {obs : List Obs} {below : List Frame} (h : Bud
   · simp only []
     split
     · exact post_nodeAfterBody (h.emit _ rfl) d force kk kw inv _
-    · exact post_block (((h.emit _ rfl).emit _ rfl).mono (by wt) (by wt)) _
+    · exact post_block (((h.emit _ rfl).emit _ rfl).mono (by wt)) _
 
 theorem post_nodeBegin {s : St} {obs : List Obs} {below : List Frame} (h : Bud k c s obs (tokB n :: below))
     (d : DagRef) (force : Bool) (inv : Nat) : Post k (nodeBegin c s obs d n force below inv) := by
   unfold nodeBegin
   split
-  · exact post_nodeFail (h.mono (by wt) (by wt)) d n _
+  · exact post_nodeFail (h.mono (by wt)) d n _
   · exact post_nodeAttempt h d force 1 _ inv
 
 theorem post_nodeStart {s : St} {obs : List Obs} {below : List Frame} (h : Bud k c s obs below)
@@ -619,11 +717,11 @@ theorem post_nodeStart {s : St} {obs : List Obs} {below : List Frame} (h : Bud k
   split
   · split
     · exact post_nodePost d n _ false (by simpa using h)
-    · exact post_block (h.mono (by wt) (by wt)) _
+    · exact post_block (h.mono (by wt)) _
   · simp only []
     have hb := h.nstart n
     apply post_cbCall
-    · intro j; exact hb.mono (by wt) (by wt)
+    · intro j; exact hb.mono (by wt)
     · exact post_nodeBegin hb d force _
     · intro e; exact post_nodeCbRaise hb d n below e
 
@@ -650,12 +748,12 @@ theorem post_oneofTry (d : DagRef) (head : Node) (below : List Frame) : ∀ (can
     · next sub hsub =>
       have hb : Bud k c (spawn ((openCand s true cand).refresh sub.nodes) [.dagInit sub] .dag).1
           (obs ++ [.spawn ((openCand s true cand).refresh sub.nodes).tasks.length .dag]) below :=
-        ((((h.same (sameL_openCand _ _ _)).same (sameL_refresh _ _)).emit _ rfl).spawned _ _ (fun _ => rfl) (fun _ => rfl))
+        ((((h.same (sameL_openCand _ _ _)).same (sameL_refresh _ _)).emit _ rfl).spawned _ _ (by wz))
       split
       · split
         · exact post_oneofTry d head below rest _ _ hb
         · exact post_oneofWin hb head cand
-      · exact post_block (hb.mono (by wt) (by wt)) _
+      · exact post_block (hb.mono (by wt)) _
 
 theorem post_oneofWake {s : St} {obs : List Obs} {below : List Frame} (h : Bud k c s obs below) (d : DagRef)
     (head cand : Node) (rest : List Node) (sub : DagRef) : Post k (oneofWake c s obs d head cand rest sub below) := by
@@ -664,7 +762,7 @@ theorem post_oneofWake {s : St} {obs : List Obs} {below : List Frame} (h : Bud k
   · split
     · exact post_oneofTry d head below rest _ _ h
     · exact post_oneofWin h head cand
-  · exact post_block (h.mono (by wt) (by wt)) _
+  · exact post_block (h.mono (by wt)) _
 
 theorem post_switchStart {s : St} {obs : List Obs} {below : List Frame} (h : Bud k c s obs below) (d : DagRef) (n : Node) :
     Post k (switchStart c s obs d n below) := by
@@ -682,7 +780,7 @@ theorem post_switchStart {s : St} {obs : List Obs} {below : List Frame} (h : Bud
       (h.same (sameL_setSw _ _ _)).same (sameL_openCand _ _ _)
     split
     · exact post_raiseOut hb _ _
-    · exact post_dagInit (hb.mono (fs' := .switchRet d n :: below) (by wt) (by wt)) _
+    · exact post_dagInit (hb.mono (fs' := .switchRet d n :: below) (by wt)) _
 
 theorem post_recFinish {s : St} {obs : List Obs} {below : List Frame} (h : Bud k c s obs below) (n start : Node) :
     Post k (recFinish c s obs n start below) := by
@@ -695,9 +793,9 @@ theorem post_recIter {s : St} {obs : List Obs} {below : List Frame} (h : Bud k c
   simp only []
   split
   · apply post_dagInit
-    exact ((h.same (sameL_setAdditional _ _ _)).same (sameL_invalidate _ _)).mono (by wt) (by wt)
+    exact ((h.same (sameL_setAdditional _ _ _)).same (sameL_invalidate _ _)).mono (by wt)
   · split
-    · exact post_nodeStart ((h.same (sameL_hide _ _)).mono (fs' := .recDfltRet d n start :: below) (by wt) (by wt)) d n true
+    · exact post_nodeStart ((h.same (sameL_hide _ _)).mono (fs' := .recDfltRet d n start :: below) (by wt)) d n true
     · split
       · apply post_recFinish
         apply h.same
@@ -723,49 +821,53 @@ theorem post_recStart {s : St} {obs : List Obs} {below : List Frame} (h : Bud k 
 theorem post_mgrReturn {s : St} {obs : List Obs} {fs : List Frame} (h : Bud k c s obs fs) (o : Outcome) :
     Post k (mgrReturn c s obs o) := by
   unfold mgrReturn
-  have := post_endTask (h.emit (.returned o) rfl) .ok
-  intro m
-  exact this m
+  exact post_endTask (h.emit (.returned o) rfl) .ok
 
-theorem post_mgrComplete {s : St} {obs : List Obs} {fs : List Frame} (h : Bud k c s obs fs) (o : Outcome) :
-    Post k (mgrComplete c s obs o) := by
+/-- `chart.run` reports the outcome: the one place that spends the completion token -/
+theorem post_mgrComplete {s : St} {obs : List Obs} (h : Bud k c s obs [tokW]) (o : Outcome)
+    (hk : k.hyp → c.P.cbRaise .pcomplete 0 = none) : Post k (mgrComplete c s obs o) := by
   unfold mgrComplete
   split
   · exact post_mgrReturn h _
-  · have hb := h.emit (.pcomplete o) rfl
-    apply post_cbCall
-    · intro j; exact hb.mono (by wt) (by wt)
-    · exact post_mgrReturn hb o
-    · intro e
+  · have hb := h.pcompleted o
+    unfold cbCall
+    split
+    · next e he =>
+      have hn : ¬ k.hyp := fun hp => by rw [hk hp] at he; cases he
       simp only []
-      apply post_mgrReturn (fs := fs)
+      apply post_mgrReturn (fs := [])
       repeat' split
-      all_goals first | exact hb.emit (.pcomplete (.error e)) rfl | exact hb
+      all_goals first | exact hb.pcompleted_again (.error e) hn | exact hb
+    · exact post_cbThen _ _ _ (fun j => hb.mono (by wt)) (post_mgrReturn hb o)
 
-theorem post_mgrFinish {s : St} {obs : List Obs} {fs : List Frame} (h : Bud k c s obs fs) : Post k (mgrFinish c s obs) := by
+theorem post_mgrFinish {s : St} {obs : List Obs} (h : Bud k c s obs [tokW])
+    (hk : k.hyp → c.P.cbRaise .pcomplete 0 = none) : Post k (mgrFinish c s obs) := by
   unfold mgrFinish
-  exact post_mgrComplete (h.same (sameL_cancelTasks _ _)) _
+  exact post_mgrComplete (h.same (sameL_cancelTasks _ _)) _ hk
 
-theorem post_mgrCheck {s : St} {obs : List Obs} {fs : List Frame} (h : Bud k c s obs fs) : Post k (mgrCheck c s obs) := by
+theorem post_mgrCheck {s : St} {obs : List Obs} (h : Bud k c s obs [tokW])
+    (hk : k.hyp → c.P.cbRaise .pcomplete 0 = none) : Post k (mgrCheck c s obs) := by
   unfold mgrCheck
   split
-  · exact post_mgrFinish h
-  · exact post_block (h.mono (by wt) (by wt)) _
+  · exact post_mgrFinish h hk
+  · exact post_block (h.mono (by wt)) _
 
-theorem post_mgrBegin {s : St} {obs : List Obs} {fs : List Frame} (h : Bud k c s obs fs) : Post k (mgrBegin c s obs) := by
+theorem post_mgrBegin {s : St} {obs : List Obs} (h : Bud k c s obs [tokW])
+    (hk : k.hyp → c.P.cbRaise .pcomplete 0 = none) : Post k (mgrBegin c s obs) := by
   unfold mgrBegin
   split
-  · exact post_mgrComplete h _
+  · exact post_mgrComplete h _ hk
   · split
-    · exact post_mgrComplete h _
-    · exact post_mgrCheck ((h.emit _ rfl).spawned _ _ (fun _ => rfl) (fun _ => rfl))
+    · exact post_mgrComplete h _ hk
+    · exact post_mgrCheck ((h.emit _ rfl).spawned _ _ (by wz)) hk
 
-theorem post_mgrStart {s : St} {obs : List Obs} {fs : List Frame} (h : Bud k c s obs fs) : Post k (mgrStart c s obs) := by
+theorem post_mgrStart {s : St} {obs : List Obs} (h : Bud k c s obs [tokM])
+    (hk : k.hyp → c.P.cbRaise .pcomplete 0 = none) : Post k (mgrStart c s obs) := by
   unfold mgrStart
-  have hb := h.emit .pstart rfl
+  have hb := h.pstarted
   apply post_cbCall
-  · intro j; exact hb.mono (by wt) (by wt)
-  · exact post_mgrBegin hb
+  · intro j; exact hb.mono (by wt)
+  · exact post_mgrBegin hb hk
   · intro e; exact post_mgrReturn hb _
 
 end handlers
@@ -779,9 +881,7 @@ theorem post_deliverCancel {k : Tot} {c : Ctx} {s : St} {fs : List Frame} (h : B
       Post k ((endTask c s0 [.returned .cancelled] .cancelled).1.setOutcome .cancelled,
               (endTask c s0 [.returned .cancelled] .cancelled).2) := by
     intro s0 h0
-    have := post_endTask (h0.emit (.returned .cancelled) rfl) .cancelled
-    intro m
-    exact this m
+    exact post_endTask (h0.emit (.returned .cancelled) rfl) .cancelled
   unfold deliverCancel
   split
   · exact caller s h
@@ -792,15 +892,14 @@ theorem post_deliverCancel {k : Tot} {c : Ctx} {s : St} {fs : List Frame} (h : B
 
 theorem bud_of_acc {k : Tot} {c : Ctx} {s : St} {tk : Task} (h : Acc k s) (htk : s.tasks[c.t]? = some tk) :
     Bud k c s [] tk.frames := by
-  intro m
-  have := h m
+  obtain ⟨h1, h2, h3⟩ := h
   have hg : (stacks s)[c.t]? = some tk.frames := by simp [stacks, htk]
-  rw [lsum_eq_rsum_some _ _ _ _ hg, lsum_eq_rsum_some _ _ _ _ hg] at this
-  simp only [cnt_nil]
-  omega
+  simp only [lsum_eq_rsum_some _ _ _ _ hg] at h1 h2 h3
+  simp only [Bud, cnt_nil]
+  exact ⟨fun m => by have := h1 m; omega, by omega, fun hp => by have := h3 hp; omega⟩
 
-theorem post_stepTask {k : Tot} {c : Ctx} {s : St} {out : Out} (h : Acc k s) (hs : stepTask c s = some out) :
-    Post k out := by
+theorem post_stepTask {k : Tot} {c : Ctx} {s : St} {out : Out} (h : Acc k s) (hs : stepTask c s = some out)
+    (hk : k.hyp → c.P.cbRaise .pcomplete 0 = none) : Post k out := by
   unfold stepTask at hs
   split at hs
   · cases hs
@@ -814,57 +913,59 @@ theorem post_stepTask {k : Tot} {c : Ctx} {s : St} {out : Out} (h : Acc k s) (hs
       · split at hs
         all_goals (first | cases hs | (obtain rfl := Option.some.inj hs) | skip)
         all_goals (rename_i hfr; rw [hfr] at hb)
-        · exact post_mgrStart hb
-        · exact post_mgrCheck hb
-        · exact post_cbThen _ _ _ (fun j => hb.mono (by wt) (by wt)) (post_mgrBegin hb)
-        · exact post_cbThen _ _ _ (fun j => hb.mono (by wt) (by wt)) (post_mgrReturn hb _)
-        · exact post_dagInit (hb.mono (by wt) (by wt)) _
-        · exact post_dagLaunch _ _ _ _ _ (hb.mono (by wt) (by wt))
-        · exact post_dagWaitDest (hb.mono (by wt) (by wt)) _
-        · exact post_nodeStart (hb.mono (by wt) (by wt)) _ _ _
-        · exact post_nodePost _ _ _ false (by simpa using hb.mono (by wt) (by wt))
-        · exact post_nodeAfterBody (hb.mono (by wt) (by wt)) _ _ _ _ _ _
-        · exact post_nodeAttempt (hb.mono (by wt) (by wt)) _ _ _ _ _
-        · exact post_cbThen _ _ _ (fun j => hb.mono (by wt) (by wt)) (post_nodeBegin (hb.mono (by wt) (by wt)) _ _ _)
-        · exact post_cbThen _ _ _ (fun j => hb.mono (by wt) (by wt))
-            (post_nodeSleep (hb.mono (by wt) (by wt)) _ _ _ _ _)
-        · exact post_cbThen _ _ _ (fun j => hb.mono (by wt) (by wt))
-            (post_nodePost _ _ _ true (by simpa using hb.mono (by wt) (by wt)))
-        · exact post_cbThen _ _ _ (fun j => hb.mono (by wt) (by wt)) (post_nodeFailCont (hb.mono (by wt) (by wt)) _ _ _)
-        · exact post_cbThen _ _ _ (fun j => hb.mono (by wt) (by wt)) (post_nodeFinish (hb.mono (by wt) (by wt)) _ _)
-        · exact post_switchStart (hb.mono (by wt) (by wt)) _ _
-        · exact post_retTo ((hb.mono (by wt) (by wt)).same (sameL_notifyAll _ _)) _
-        · exact post_oneofTry _ _ _ _ _ _ (hb.mono (by wt) (by wt))
-        · exact post_oneofWake (hb.mono (by wt) (by wt)) _ _ _ _ _
-        · exact post_recStart (hb.mono (by wt) (by wt)) _ _ _
+        · exact post_mgrStart hb hk
+        · exact post_mgrCheck hb hk
+        · exact post_cbThen _ _ _ (fun j => hb.mono (by wt)) (post_mgrBegin (hb.mono (by wt)) hk)
+        · exact post_cbThen _ _ _ (fun j => hb.mono (by wt)) (post_mgrReturn hb _)
+        · exact post_dagInit (hb.mono (by wt)) _
+        · exact post_dagLaunch _ _ _ _ _ (hb.mono (by wt))
+        · exact post_dagWaitDest (hb.mono (by wt)) _
+        · exact post_nodeStart (hb.mono (by wt)) _ _ _
+        · exact post_nodePost _ _ _ false (by simpa using hb.mono (by wt))
+        · exact post_nodeAfterBody (hb.mono (by wt)) _ _ _ _ _ _
+        · exact post_nodeAttempt (hb.mono (by wt)) _ _ _ _ _
+        · exact post_cbThen _ _ _ (fun j => hb.mono (by wt)) (post_nodeBegin (hb.mono (by wt)) _ _ _)
+        · exact post_cbThen _ _ _ (fun j => hb.mono (by wt))
+            (post_nodeSleep (hb.mono (by wt)) _ _ _ _ _)
+        · exact post_cbThen _ _ _ (fun j => hb.mono (by wt))
+            (post_nodePost _ _ _ true (by simpa using hb.mono (by wt)))
+        · exact post_cbThen _ _ _ (fun j => hb.mono (by wt)) (post_nodeFailCont (hb.mono (by wt)) _ _ _)
+        · exact post_cbThen _ _ _ (fun j => hb.mono (by wt)) (post_nodeFinish (hb.mono (by wt)) _ _)
+        · exact post_switchStart (hb.mono (by wt)) _ _
+        · exact post_retTo ((hb.mono (by wt)).same (sameL_notifyAll _ _)) _
+        · exact post_oneofTry _ _ _ _ _ _ (hb.mono (by wt))
+        · exact post_oneofWake (hb.mono (by wt)) _ _ _ _ _
+        · exact post_recStart (hb.mono (by wt)) _ _ _
         · split at hs
           · simp only [] at hs
             obtain rfl := Option.some.inj hs
             apply post_retTo
             split
-            · exact (hb.mono (by wt) (by wt)).same
+            · exact (hb.mono (by wt)).same
                 (((sameL_setRes s _ _).trans (sameL_notify _ _)).trans (sameL_notifyAll _ _))
-            · exact hb.mono (by wt) (by wt)
+            · exact hb.mono (by wt)
           · split at hs
             · obtain rfl := Option.some.inj hs
-              exact post_recFinish (hb.mono (by wt) (by wt)) _ _
+              exact post_recFinish (hb.mono (by wt)) _ _
             · obtain rfl := Option.some.inj hs
-              exact post_recIter (hb.mono (by wt) (by wt)) _ _ _ _ _ _
-        · exact post_recFinish (hb.mono (by wt) (by wt)) _ _
+              exact post_recIter (hb.mono (by wt)) _ _ _ _ _ _
+        · exact post_recFinish (hb.mono (by wt)) _ _
     · cases hs
 
 
 theorem Acc.same {k : Tot} {s s' : St} (h : Acc k s) (hs : SameL s s') : Acc k s' := by
-  intro m; have := h m; rw [hs.1, hs.2]; exact this
+  unfold Acc at h ⊢; rw [hs.1, hs.2]; exact h
 
 theorem post_of_acc {k : Tot} {s : St} (h : Acc k s) : Post k (s, []) := by
-  intro m; have := h m; simp only [cnt_nil]; omega
+  obtain ⟨h1, h2, h3⟩ := h
+  simp only [Post, cnt_nil]
+  exact ⟨fun m => by have := h1 m; omega, by omega, fun hp => by have := h3 hp; omega⟩
 
 /-- every `Choice` preserves the ledger -/
 theorem post_step {k : Tot} {P : Program} {s : St} {ch : Choice} {out : Out} (h : Acc k s)
-    (hs : step P s ch = some out) : Post k out := by
+    (hs : step P s ch = some out) (hk : k.hyp → P.cbRaise .pcomplete 0 = none) : Post k out := by
   cases ch with
-  | run t ord pick => exact post_stepTask h hs
+  | run t ord pick => exact post_stepTask h hs hk
   | gate n inv att =>
     simp only [step] at hs
     split at hs
@@ -893,28 +994,37 @@ theorem post_step {k : Tot} {P : Program} {s : St} {ch : Choice} {out : Out} (h 
     exact post_of_acc (h.same (sameL_cancelTask _ _))
 
 /-- the event totals of a log -/
-def totOf (log : List Obs) : Tot := ⟨fun m => cnt (evS m) log, fun m => cnt (evO m) log, fun m => cnt (evN m) log⟩
+def totOf (P : Program) (log : List Obs) : Tot :=
+  ⟨fun m => cnt (evS m) log, fun m => cnt (evO m) log, fun m => cnt (evN m) log, cnt evP log, cnt evC log,
+   P.cbRaise .pcomplete 0 = none⟩
 
-theorem totOf_append (log obs : List Obs) : totOf (log ++ obs) = (totOf log).add obs := by
+theorem totOf_append (P : Program) (log obs : List Obs) : totOf P (log ++ obs) = (totOf P log).add obs := by
   simp [totOf, Tot.add, cnt_append]
 
-theorem acc_init : Acc (totOf []) init := by
-  intro m
-  simp [totOf, init, stacks, lsum, fA, fB]
+theorem acc_init (P : Program) : Acc (totOf P []) init := by
+  refine ⟨fun m => ?_, ?_, fun _ => ?_⟩ <;> simp [totOf, init, stacks, lsum, fA, fB, fM, fW]
 
 /-- **the ledger holds in every execution** (all programs, all schedules) -/
-theorem acc_exec {P : Program} {s : St} {log : List Obs} (h : Exec P s log) : Acc (totOf log) s := by
+theorem acc_exec {P : Program} {s : St} {log : List Obs} (h : Exec P s log) : Acc (totOf P log) s := by
   induction h with
-  | init => exact acc_init
+  | init => exact acc_init P
   | step _ hs ih =>
     rw [totOf_append]
-    exact acc_of_post (post_step ih hs)
+    exact acc_of_post (post_step ih hs (fun hp => hp))
 
 theorem ledger {P : Program} {s : St} {log : List Obs} (h : Exec P s log) (m : Node) :
     cnt (evS m) log ≤ cnt (evO m) log ∧ cnt (evO m) log ≤ cnt (evN m) log ∧ cnt (evN m) log = s.invCount m := by
-  have := acc_exec h m
+  have := (acc_exec h).1 m
   simp only [totOf] at this
   omega
+
+/-- `on_pipeline_start` is emitted at most once in an execution; and when the event manager does not raise in
+`on_pipeline_complete`, that event is emitted at most once too -/
+theorem ledger_pipeline {P : Program} {s : St} {log : List Obs} (h : Exec P s log) :
+    cnt evP log ≤ 1 ∧ (P.cbRaise .pcomplete 0 = none → cnt evC log ≤ 1) := by
+  obtain ⟨_, h2, h3⟩ := acc_exec h
+  simp only [totOf] at h2 h3
+  exact ⟨by omega, fun hp => by have := h3 hp; omega⟩
 
 /-- an executable run with its log, for closed examples -/
 def execLog (P : Program) : St → List Obs → List Choice → Option (St × List Obs)
@@ -932,5 +1042,150 @@ theorem exec_of_execLog {P : Program} : ∀ (cs : List Choice) (s : St) (log : L
     split at hr
     · next s' obs hs => exact exec_of_execLog cs s' (log ++ obs) r (.step h hs) hr
     · cases hr
+
+
+/-! ### `on_pipeline_start` comes first -/
+
+/-- the section only appends to the observations it was given -/
+def Pre (obs : List Obs) (out : Out) : Prop := ∃ r, out.2 = obs ++ r
+
+theorem Pre.refl (s : St) (obs : List Obs) : Pre obs (s, obs) := ⟨[], by simp⟩
+theorem Pre.snoc {obs : List Obs} {o : Obs} {out : Out} (h : Pre (obs ++ [o]) out) : Pre obs out := by
+  obtain ⟨r, hr⟩ := h; exact ⟨o :: r, by simp [hr]⟩
+theorem Pre.app {obs l : List Obs} {out : Out} (h : Pre (obs ++ l) out) : Pre obs out := by
+  obtain ⟨r, hr⟩ := h; exact ⟨l ++ r, by simp [hr]⟩
+
+theorem pre_endTask (c : Ctx) (s : St) (obs : List Obs) (r : TaskRes) : Pre obs (endTask c s obs r) := by
+  unfold endTask; split
+  · exact Pre.refl _ _
+  · exact ⟨_, rfl⟩
+
+theorem pre_block (c : Ctx) (s : St) (obs : List Obs) (fs : List Frame) (w : Wait) : Pre obs (block c s obs fs w) := by
+  unfold block; split <;> exact Pre.refl _ _
+
+theorem pre_yieldNow (c : Ctx) (s : St) (obs : List Obs) (fs : List Frame) : Pre obs (yieldNow c s obs fs) := by
+  unfold yieldNow; split <;> exact Pre.refl _ _
+
+theorem pre_mgrReturn (c : Ctx) (s : St) (obs : List Obs) (o : Outcome) : Pre obs (mgrReturn c s obs o) := by
+  unfold mgrReturn
+  obtain ⟨r, hr⟩ := pre_endTask c s (obs ++ [.returned o]) .ok
+  exact ⟨.returned o :: r, by simp [hr]⟩
+
+theorem pre_cbThen (c : Ctx) (s : St) (obs : List Obs) (frames : Nat → List Frame) (j : Nat) (kk : St → List Obs → Out)
+    (hk : Pre obs (kk s obs)) : Pre obs (cbThen c s obs frames j kk) := by
+  unfold cbThen; split
+  · exact hk
+  · exact pre_yieldNow _ _ _ _
+
+theorem pre_cbCall (c : Ctx) (cb : Cb) (n : Node) (s : St) (obs : List Obs) (frames : Nat → List Frame)
+    (kOk : St → List Obs → Out) (kErr : Exc → St → List Obs → Out)
+    (hOk : Pre obs (kOk s obs)) (hErr : ∀ e, Pre obs (kErr e s obs)) : Pre obs (cbCall c cb n s obs frames kOk kErr) := by
+  unfold cbCall; split
+  · exact hErr _
+  · exact pre_cbThen _ _ _ _ _ _ hOk
+
+theorem pre_mgrComplete (c : Ctx) (s : St) (obs : List Obs) (o : Outcome) : Pre obs (mgrComplete c s obs o) := by
+  unfold mgrComplete; split
+  · exact pre_mgrReturn _ _ _ _
+  · apply Pre.snoc (o := .pcomplete o)
+    apply pre_cbCall
+    · exact pre_mgrReturn _ _ _ _
+    · intro e
+      simp only []
+      repeat' split
+      all_goals first | exact (pre_mgrReturn _ _ _ _).snoc | exact pre_mgrReturn _ _ _ _
+
+theorem pre_mgrFinish (c : Ctx) (s : St) (obs : List Obs) : Pre obs (mgrFinish c s obs) := by
+  unfold mgrFinish; exact pre_mgrComplete _ _ _ _
+
+theorem pre_mgrCheck (c : Ctx) (s : St) (obs : List Obs) : Pre obs (mgrCheck c s obs) := by
+  unfold mgrCheck; split
+  · exact pre_mgrFinish _ _ _
+  · exact pre_block _ _ _ _ _
+
+theorem pre_mgrBegin (c : Ctx) (s : St) (obs : List Obs) : Pre obs (mgrBegin c s obs) := by
+  unfold mgrBegin; split
+  · exact pre_mgrComplete _ _ _ _
+  · split
+    · exact pre_mgrComplete _ _ _ _
+    · exact (pre_mgrCheck _ _ _).snoc
+
+/-- the first thing `chart.run` does: `on_pipeline_start` -/
+theorem mgrStart_head (c : Ctx) (s : St) : (mgrStart c s []).2.head? = some .pstart := by
+  have : Pre [.pstart] (mgrStart c s []) := by
+    unfold mgrStart
+    apply pre_cbCall
+    · exact pre_mgrBegin _ _ _
+    · intro e; exact pre_mgrReturn _ _ _ _
+  obtain ⟨r, hr⟩ := this
+  rw [hr]; rfl
+
+/-- the caller's task of the initial state, with its cancellation requested -/
+def init' : St := cancelTask init 0
+
+theorem cancel_init : cancelTask init 0 = init' := rfl
+theorem cancel_init' : cancelTask init' 0 = init' := rfl
+
+/-- a step from the initial state (cancelled or not) that reports nothing is the cancellation request; any other step
+starts its report with `on_pipeline_start`, or — cancelled before it began — with the return of `CancelledError` -/
+theorem first_step (P : Program) (s : St) (hs0 : s = init ∨ s = init') (ch : Choice) (s' : St) (obs : List Obs)
+    (h : step P s ch = some (s', obs)) :
+    (obs = [] ∧ (s' = init ∨ s' = init')) ∨ obs.head? = some .pstart ∨ obs.head? = some (.returned .cancelled) := by
+  cases ch with
+  | cancelCaller =>
+    simp only [step, Option.some.injEq, Prod.mk.injEq] at h
+    obtain ⟨rfl, rfl⟩ := h
+    rcases hs0 with rfl | rfl
+    · exact Or.inl ⟨rfl, Or.inr rfl⟩
+    · exact Or.inl ⟨rfl, Or.inr rfl⟩
+  | gate n inv att =>
+    rcases hs0 with rfl | rfl <;> simp [step, init, init', cancelTask, St.setTask, gateMatches] at h
+  | timer t =>
+    rcases hs0 with rfl | rfl
+    · simp only [step, init] at h
+      cases t with
+      | zero => simp at h
+      | succ t => simp at h
+    · simp only [step, init', init, cancelTask, St.setTask] at h
+      cases t with
+      | zero => simp at h
+      | succ t => simp at h
+  | run t ord pick =>
+    rcases hs0 with rfl | rfl
+    · cases t with
+      | zero =>
+        simp only [step, stepTask, init, List.getElem?_cons_zero] at h
+        simp only [Bool.false_eq_true, if_false, Option.some.injEq] at h
+        right; left
+        have := mgrStart_head { P := P, t := 0, ord := ord, pick := pick } init
+        simp only [init] at this
+        rw [h] at this
+        exact this
+      | succ t => simp [step, stepTask, init] at h
+    · cases t with
+      | zero =>
+        simp only [step, stepTask, init', init, cancelTask, St.setTask, List.getElem?_cons_zero, List.set_cons_zero] at h
+        simp only [if_true, Option.some.injEq, deliverCancel] at h
+        right; right
+        have h2 := congrArg Prod.snd h
+        simp only [endTask, List.getElem?_cons_zero] at h2
+        rw [← h2]; rfl
+      | succ t => simp [step, stepTask, init', init, cancelTask, St.setTask] at h
+
+/-- **`on_pipeline_start` before anything else** (all programs, all schedules): the observation log of every execution is
+empty, or begins with `on_pipeline_start`, or — the caller was cancelled before `chart.run` got its first turn — with the
+return of `CancelledError` -/
+theorem first_event {P : Program} {s : St} {log : List Obs} (h : Exec P s log) :
+    (log = [] ∧ (s = init ∨ s = init')) ∨ log.head? = some .pstart ∨ log.head? = some (.returned .cancelled) := by
+  induction h with
+  | init => exact Or.inl ⟨rfl, Or.inl rfl⟩
+  | @step s0 s1 log0 obs ch _ hs ih =>
+    rcases ih with ⟨rfl, h0⟩ | hh
+    · simpa using first_step P s0 h0 ch s1 obs hs
+    · right
+      cases log0 with
+      | nil => simp at hh
+      | cons x xs => simpa using hh
+
 
 end MLPE.Eng
